@@ -2,9 +2,11 @@
     across dials, closes and the expiry of closed-connection entries.
 
     Mirrors (uquic):
-      u_transport.go  UTransport.doDial / transport.go Transport.doDial:
-                      [t.handlers[srcConnID] = conn] under t.mutex -- a plain map write, it takes
-                      over whatever a previous connection left under that ID
+      u_transport.go  UTransport.doDial (after fixes/C02-empty-scid-one-open-connection.patch): under
+                      t.mutex, refuse the dial when the ID is held by an OPEN connection; otherwise
+                      [t.handlers[srcConnID] = conn], a plain map write that takes over whatever
+                      a CLOSED connection left under that ID.  [overwrite_dial]: the code before
+                      that repair wrote unconditionally
       transport.go    packetHandlerMap.ReplaceWithClosed: every ID of a gracefully closed connection
                       is re-pointed to a closed-connection handler (closedLocalConn / closedRemoteConn)
                       and a timer (3 PTO) is armed that deletes the entry ONLY if it still holds
@@ -68,9 +70,19 @@ Fixpoint drop_timer (k id : Z) (l : list (Z * Z)) : list (Z * Z) :=
   | (i, j) :: r => if (i =? id) && (j =? k) then r else (i, j) :: drop_timer k id r
   end.
 
+(** doDial: the new state and whether the dial was accepted *)
+Definition rgdial (st : rgstate) (k id : Z) : rgstate * bool :=
+  match lookup id (rgMap st) with
+  | Some (Live _) => (st, false)                                   (* in use by an open connection: refused *)
+  | _ => (RG (set id (Live k) (rgMap st)) (rgTimers st), true)
+  end.
+(* before fixes/C02-empty-scid-one-open-connection.patch *)
+Definition overwrite_dial (st : rgstate) (k id : Z) : rgstate :=
+  RG (set id (Live k) (rgMap st)) (rgTimers st).
+
 Definition rgstep (st : rgstate) (o : rgop) : rgstate :=
   match o with
-  | RgDial k id => RG (set id (Live k) (rgMap st)) (rgTimers st)
+  | RgDial k id => fst (rgdial st k id)
   | RgClose k id => RG (set id (Tomb k) (rgMap st)) ((id, k) :: rgTimers st)
   | RgDestroy _ id => RG (remove id (rgMap st)) (rgTimers st)
   | RgExpire k id =>
@@ -86,6 +98,22 @@ Definition rgrun (st : rgstate) (ops : list rgop) : rgstate := fold_left rgstep 
 
 (** handlePacket: who gets a packet with destination ID [id] *)
 Definition route (st : rgstate) (id : Z) : option handler := lookup id (rgMap st).
+
+(** An operation is enabled when the connection it belongs to exists: connection j can be closed
+    or destroyed only while it is the open connection registered under its ID (Dial returned it,
+    nobody can take an open connection's entry, it has not been closed before). Dials and timer
+    expiries are always enabled. *)
+Definition enabled (st : rgstate) (o : rgop) : bool :=
+  match o with
+  | RgClose j i | RgDestroy j i =>
+    match route st i with Some h => handler_eqb h (Live j) | None => false end
+  | _ => true
+  end.
+Fixpoint wf_run (st : rgstate) (ops : list rgop) : bool :=
+  match ops with
+  | [] => true
+  | o :: r => enabled st o && wf_run (rgstep st o) r
+  end.
 
 (** all pending timers fire, oldest first (what a long pause does) *)
 Definition expire_all (st : rgstate) : rgstate :=
